@@ -3,6 +3,8 @@ package oracle
 import (
 	"bytes"
 	"fmt"
+	"net/http"
+	"strings"
 
 	"verif/harness/model"
 	"verif/harness/world"
@@ -17,6 +19,16 @@ func C16(o *world.Obs) *Result {
 		for _, b := range o.Exchanges[i+1:] {
 			if a.Thread >= 0 && b.Thread >= 0 && a.Thread != b.Thread && a.StartSeq < b.EndSeq && b.StartSeq < a.EndSeq {
 				r.NonTrivial = true
+			}
+		}
+	}
+	// fields some request of this history carries under a non-canonical map key
+	rawKey := map[string]bool{}
+	for _, ex := range o.Exchanges {
+		for _, kv := range ex.Req.Header {
+			if strings.HasPrefix(kv[0], "!") {
+				rawKey[http.CanonicalHeaderKey(kv[0][1:])] = true
+				r.Label("non-canonical-request-key")
 			}
 		}
 	}
@@ -48,6 +60,16 @@ func C16(o *world.Obs) *Result {
 			if d := world.DiffHeader(ex.Resp.Header, ex.Resp.HeaderEnd); d != "" {
 				r.Fail("C16", "response-changed-after-return", ex.Idx, "the header map of a returned response changed after RoundTrip had returned it: %s; %s", d, SummarizeExchange(o, ex))
 			}
+		}
+		// the status fields are written per response: what another caller did to the values
+		// of its own response must not show here
+		if st := ex.Resp.Header.Values("X-Httpcache-Status"); len(st) != 1 || !validStatus[st[0]] {
+			r.Fail("C16", "status-header-corrupted", ex.Idx, "X-Httpcache-Status = %q; %s", st, SummarizeExchange(o, ex))
+			continue
+		}
+		if fc := ex.Resp.Header.Values("X-From-Cache"); len(fc) > 1 || (len(fc) == 1 && fc[0] != "1") {
+			r.Fail("C16", "status-header-corrupted", ex.Idx, "X-From-Cache = %q; %s", fc, SummarizeExchange(o, ex))
+			continue
 		}
 		hdrTok := world.TokOf(ex.Resp.Header)
 		if hdrTok < 0 {
@@ -97,6 +119,9 @@ func C16(o *world.Obs) *Result {
 				mm = "Vary: *"
 			}
 			for _, f := range fields {
+				if rawKey[f] {
+					continue // not judged: Go code conventionally does not see such keys
+				}
 				if model.SurelyDifferent(v.Req.Values(f), h.Values(f)) {
 					mm = fmt.Sprintf("%s: stored for %q, requested with %q", f, v.Req.Values(f), h.Values(f))
 				}
